@@ -1,0 +1,53 @@
+// Copyright 2026 The Mellium Contributors.
+// Use of this source code is governed by the BSD 2-clause
+// license that can be found in the LICENSE file.
+
+//go:build verif
+
+package xmpp
+
+import (
+	"encoding/xml"
+
+	"mellium.im/xmlstream"
+	"mellium.im/xmpp/internal/saslerr"
+)
+
+// VerifPayload is what the verification harness needs from a payload value
+// whose type it cannot name (internal or unexported types).
+type VerifPayload interface {
+	TokenReader() xml.TokenReader
+	WriteXML(w xmlstream.TokenWriter) (int, error)
+	MarshalXML(e *xml.Encoder, start xml.StartElement) error
+}
+
+// VerifSASLCondition returns the internal/saslerr condition with the given
+// numeric value (any value, defined or not). It only exists in builds with the
+// "verif" tag.
+func VerifSASLCondition(n uint16) VerifPayload {
+	return saslerr.Condition(n)
+}
+
+// VerifSASLConditionName is the String method of the condition.
+func VerifSASLConditionName(n uint16) string {
+	return saslerr.Condition(n).String()
+}
+
+// VerifDecodeSASLCondition runs the condition's UnmarshalXML.
+func VerifDecodeSASLCondition(d *xml.Decoder, start xml.StartElement) (uint16, error) {
+	var c saslerr.Condition
+	err := (&c).UnmarshalXML(d, start)
+	return uint16(c), err
+}
+
+// VerifSASLError returns the internal/saslerr error payload (<failure/>).
+func VerifSASLError(cond uint16, lang, text string) VerifPayload {
+	return saslerr.Error{Condition: saslerr.Condition(cond), Lang: lang, Text: text}
+}
+
+// VerifDecodeSASLError runs the error payload's UnmarshalXML.
+func VerifDecodeSASLError(d *xml.Decoder, start xml.StartElement) (cond uint16, lang, text string, err error) {
+	var e saslerr.Error
+	err = (&e).UnmarshalXML(d, start)
+	return uint16(e.Condition), e.Lang, e.Text, err
+}
